@@ -153,6 +153,12 @@ def k_skip_pre(st_size: int, mtime: int, last_mtime: int, f_dig: int, e_size: in
             and (not changed or mtime > last_mtime))
 
 
+def k_size_change_pre(st_size: int, mtime: int, last_mtime: int, f_dig: int, e_size: int,
+                      e_dig: int, weird_fs: bool):
+    # no hypothesis about mtimes here: the size differs from the recorded one
+    return st_size >= 0 and e_size >= 0 and st_size != e_size and (st_size >= 1 or f_dig == 0)
+
+
 # ---------------------------------------------------------------------------------------
 # K3: the TIMESTAMP written is the instant taken before scanning started
 
@@ -243,6 +249,12 @@ def conditions(tier):
                        bounds='sizes, mtimes, last_mtime any int; digests any int token (only '
                               'equality matters); '
                               + ('st_size reported as 0' if w else 'st_size = true size')))
+    for w in (False, True):
+        cs.append(Cond(f'size_change_w{int(w)}', specialise(k_skip_rule, weird_fs=w),
+                       specialise(k_size_change_pre, weird_fs=w), timeout=300, group='skip',
+                       descr='a file whose size differs from the recorded size is re-hashed '
+                             'and refreshed whatever its mtime (older, equal, newer than '
+                             'last_mtime)', bounds='any ints; no mtime hypothesis'))
     cs.append(Cond('clock', k_clock, k_clock_pre, timeout=120, group='clock',
                    descr='UpdateCommand (-t / existing TIMESTAMP) and CreateCommand (-t) with '
                          'a clock stub issuing non-decreasing instants: the TIMESTAMP written '
